@@ -200,13 +200,28 @@ func (h *harness) runCase(c *Case) (fails []failure, rejected bool) {
 				if d := diff(want, got.maskDefaults()); d != "" {
 					fail(failure{Part: "intro", Kind: "property", Class: "describe-mismatch", What: fmt.Sprintf("features %v: introspection differs from the definition at %s", F, d)})
 				}
-				if dr := got.danglingRefs(); len(dr) > 0 {
-					fail(failure{Part: "intro", Kind: "property", Class: "dangling-ref", What: fmt.Sprintf("features %v: type reference does not resolve to a listed type: %s", F, dr[0])})
+				reach := c.S.reachable()
+				var plain, gatedDirArg []dangling
+				for _, dr := range got.danglingRefs() {
+					// F-10g classifier: the type of a directive argument, a registered type whose
+					// required features the request does not have
+					if strings.HasPrefix(dr.Where, "@") && reach[dr.Name] && c.S.typeByName(dr.Name) != nil && !subset(c.S.featOf(dr.Name), F) {
+						gatedDirArg = append(gatedDirArg, dr)
+					} else {
+						plain = append(plain, dr)
+					}
+				}
+				if len(plain) > 0 {
+					fail(failure{Part: "intro", Kind: "property", Class: "dangling-ref", What: fmt.Sprintf("features %v: type reference does not resolve to a listed type: %s -> %s", F, plain[0].Where, plain[0].Name)})
+				}
+				if len(gatedDirArg) > 0 {
+					fail(failure{Part: "intro", Kind: "property", Class: "dangling-ref-directive-arg", Finding: "F-10g-gated-directive-argument-type",
+						What: fmt.Sprintf("features %v: directive argument type does not resolve to a listed type: %s -> %s (requires %v)", F, gatedDirArg[0].Where, gatedDirArg[0].Name, c.S.featOf(gatedDirArg[0].Name))})
 				}
 				if h.model != nil {
 					if f := h.tieIntro(bt, s, F, got); f != nil {
 						// model and code disagree: is the property violated on the implementation's output?
-						f.NoInput = len(fails) == 0
+						f.NoInput = unexplained(fails) == 0
 						if !f.NoInput {
 							f = nil // the oracle failure above already carries the input
 						}
@@ -280,6 +295,17 @@ func errClass(msg string) string {
 		}
 	}
 	return string(out)
+}
+
+// unexplained counts the failures that are not attributed to a known finding.
+func unexplained(fs []failure) int {
+	n := 0
+	for _, f := range fs {
+		if f.Finding == "" {
+			n++
+		}
+	}
+	return n
 }
 
 func sameSet(a, b []string) bool { return subset(a, b) && subset(b, a) }
@@ -400,7 +426,7 @@ func (h *harness) rebuildPart(c *Case, bt *built, s *schema.Schema, data []byte,
 	}
 	if h.model != nil && !h.quiet {
 		if f := h.tieRebuild(bt, s, data); f != nil {
-			f.NoInput = len(fails) == 0
+			f.NoInput = unexplained(fails) == 0
 			if f.NoInput {
 				fails = append(fails, *f)
 			}
@@ -497,7 +523,7 @@ func (h *harness) clonePart(c *Case, bt *built, s *schema.Schema) (fails []failu
 	// (tie) sharing pattern and contents vs the model's clone over the heap model
 	if h.model != nil && !h.quiet {
 		if f := h.tieClone(bt, cl); f != nil {
-			f.NoInput = len(fails) == 0
+			f.NoInput = unexplained(fails) == 0
 			if f.NoInput {
 				fail(*f)
 			}
